@@ -71,7 +71,6 @@ func richPayload(kind string) any {
 	var best any
 	for seed := 1; seed < 200; seed++ {
 		v := g.Example(seed)
-		sanitizeEmptyBytes(v)
 		b, err := c.encP(v)
 		if err != nil {
 			continue
